@@ -53,11 +53,18 @@ def check_bits(bv, spec, fmap, nbits=8, consts=None):
     got = bv.window(0, nbits)
     if bv.width() is None or bv.width() > nbits:
         probs.append("value is not confined to %d bits (%s)" % (nbits, bv.describe()))
+    vague = []
     for i in range(nbits):
         if got[i] != want[i]:
+            if got[i] == T:
+                vague.append(i)
+                continue
             probs.append("bit %d is %s, specification says %s" % (i, _b(got[i]), _b(want[i])))
             if len(probs) > 3:
                 break
+    if vague and not probs:
+        # only bits the domain could not interpret differ: undecided, not a finding (Ctx.violated routes the marker to UNKNOWN)
+        return ["NOT-INTERPRETABLE bits %s (%s)" % (vague[:6], bv.describe())]
     return probs
 
 
@@ -343,8 +350,15 @@ def parsers(ctx, L, rule="R-LAYOUT"):
                     d = None
                     from .common import affine_diff
                     # value must be <24-bit LE of bytes 4..6> - 1
-                    base = [x for x in walk(e.value) if x[0] == "bin" and x[1] == "|"]
+                    # (the three masked bytes may be combined with | or with + : disjoint bit fields)
                     ok = False
+                    if e.value[0] == "bin" and e.value[1] in ("-", "+"):
+                        for x, k_ in ((e.value[2], e.value[3]), (e.value[3], e.value[2])):
+                            if (e.value[1] == "-" and x is e.value[2] and k_ == ("c", 1)) or (e.value[1] == "+" and k_ == ("c", -1)):
+                                bvx = be.ev(x)
+                                if not bvx.has_top() and bvx.window(0, 24) == le_spec(4, 3) and bvx.width() is not None and bvx.width() <= 24:
+                                    ok = True
+                    base = [x for x in walk(e.value) if x[0] == "bin" and x[1] == "|"]
                     for x in base:
                         if be.ev(x).window(0, 24) == le_spec(4, 3) and affine_diff(e.value, x) == ({}, -1):
                             ok = True
@@ -436,7 +450,8 @@ def deliver_args(ctx, L, rule="R-DELIVER-ARGS"):
     PG = ("call", ("clsref", "ParameterGroupNumber"), (), ())
     n = 0
     for r in runs(ctx, f):
-        filled = any(e.kind == "call" and e.value[1] == ("attr", PG, "from_message_id") and e.value[2] == (MID,) for _, e in r.effects())
+        filled = any(e.kind == "call" and e.value[1] == ("attr", PG, "from_message_id") and e.value[2] == (MID,) for _, e in r.effects()) or \
+            getattr(r, "pgn_from_mid", False)     # (constructed directly from the identifier's fields: rules.common._canon_pgn)
         for i, e in r.effects():
             if e.kind == "call" and is_self_call(e.value, "__notify_subscribers"):
                 n += 1
